@@ -2,6 +2,7 @@ from __future__ import annotations
 
 import ssl
 import sys
+import time
 import types
 import typing
 
@@ -214,6 +215,7 @@ class ConnectionPool(RequestInterface):
 
         timeouts = request.extensions.get("timeout", {})
         timeout = timeouts.get("pool", None)
+        deadline = None if timeout is None else time.monotonic() + timeout
 
         with self._optional_thread_lock:
             # Add the incoming request to our request queue.
@@ -228,7 +230,10 @@ class ConnectionPool(RequestInterface):
                     closing = self._assign_requests_to_connections()
                 self._close_connections(closing)
 
-                # Wait until this request has an assigned connection.
+                # Wait until this request has an assigned connection. If it has
+                # been put back in the queue, the time already spent counts.
+                if deadline is not None:
+                    timeout = max(deadline - time.monotonic(), 0)
                 connection = pool_request.wait_for_connection(timeout=timeout)
 
                 try:
